@@ -306,6 +306,8 @@ def run_pixelfirst(rc):
     dt = tdtype(torch, rc["dtype"])
     K = _K(torch, rc["K"], dt)
     px = torch.tensor(rc["pixq"], dtype=dt) / 4.0
+    if rc.get("intpix"):          # integer pixel coordinates (image grid / detector output) as an integer tensor
+        px = torch.tensor([[a // 4, b // 4] for a, b in rc["pixq"]], dtype=torch.int64)
     z = torch.tensor(rc["z2"], dtype=dt) / 2.0
     try:
         pts = pp.pixel2point(px, z, K)
@@ -617,6 +619,10 @@ def camera_recipes(ctx):
         out.append({"fn": "pixelfirst", "K": red(k4(pow2)), "pixq": [[rng.randint(-40, 40), rng.randint(-40, 40)] for _ in range(n)],
                     "z2": [rng.choice((1, 2, 4, 8, -2, -4) if pow2 else (1, 2, 3, 5, 6, 7, -3, -4, 12)) for _ in range(n)],
                     "dtype": dtype, "maxden": 64 if pow2 else 1024, "cls": "single"})
+        if i % 2 == 0:            # the same with integer-typed pixels (non-integer intrinsics must survive)
+            rc2 = dict(out[-1], pixq=[[4 * rng.randint(-10, 10), 4 * rng.randint(-10, 10)] for _ in range(n)], intpix=True,
+                       cls="intpix")
+            out.append(rc2)
     for D in range(1, 7):
         for dtype in ("float64", "float32"):
             for bs in ((), (2,), (2, 2)):
